@@ -8,7 +8,7 @@ import time
 import traceback
 
 from . import env  # noqa: F401  (patches uuid4 before geoh5py is imported)
-from .core import HarnessError, canon, safe_run
+from .core import VERIF, HarnessError, canon, safe_run
 
 
 def load_check(pid: str):
@@ -65,6 +65,14 @@ def run_shard(pid, tier, seed, shard, nshards, examples):
     for i, program in enumerate(enum):
         if i % nshards == shard:
             record(program, "enum")
+
+    # saved inputs: programs that once exposed a (seeded or real) defect, kept as a seconds-long regression corpus
+    corpus_dir = VERIF / "corpus" / pid
+    if corpus_dir.is_dir():
+        for i, path in enumerate(sorted(corpus_dir.glob("*.json"))):
+            if i % nshards == shard:
+                record(json.loads(path.read_text())["program"], "corpus")
+                out["corpus"] = out.get("corpus", 0) + 1
 
     if examples > 0:
         strat = check.strategy(tier)
